@@ -6,6 +6,7 @@ import (
 	"fmt"
 	"os"
 	"runtime/debug"
+	"sort"
 
 	"pigeonverif/internal/ob"
 	"pigeonverif/internal/rules"
@@ -40,6 +41,34 @@ func main() {
 		os.Exit(2)
 	}
 	id, tier := os.Args[1], os.Args[2]
+	if id == "ALL" {
+		// decide every property in one process (shared loading); exit 1 if any of them reports a violation
+		ids := make([]string, 0, len(checks))
+		for k := range checks {
+			ids = append(ids, k)
+		}
+		sort.Strings(ids)
+		var prev *rules.Ctx
+		rc := 0
+		for _, k := range ids {
+			r := ob.New(k, tier)
+			c := rules.NewCtx(tier, r)
+			c.Share(prev)
+			func() {
+				defer func() {
+					if e := recover(); e != nil {
+						r.Fatal("analyser panic: %v\n%s", e, debug.Stack())
+					}
+				}()
+				checks[k](c)
+			}()
+			if r.Finish() != 0 {
+				rc = 1
+			}
+			prev = c
+		}
+		os.Exit(rc)
+	}
 	f, ok := checks[id]
 	if !ok {
 		fmt.Printf("unknown property %s\n", id)
